@@ -170,7 +170,25 @@ fn circ(a: u128, b: u128) -> felt252 {
         Result::Err(_) => 1000,
     }
 }
-"#, vec![("circ", vec![vec![3, 6], vec![1, 6], vec![2, 2]])]),
+fn inv_loop(x: u128, n: u32) -> felt252 {
+    // n evaluations of a one-gate circuit (the inverse of x mod 55): fails for x sharing a factor with 55
+    let mut acc = 0;
+    let mut i = 0_u32;
+    while i != n {
+        let in1 = CircuitElement::<CircuitInput<0>> {};
+        let inv = circuit_inverse(in1);
+        let modulus = TryInto::<_, CircuitModulus>::try_into([55, 0, 0, 0]).unwrap();
+        let v: u96 = pick55(x);
+        acc += match (inv,).new_inputs().next([v, 0, 0, 0]).done().eval(modulus) {
+            Result::Ok(outputs) => { let r: u384 = outputs.get_output(inv); r.limb0.into() },
+            Result::Err(_) => 1000,
+        };
+        i += 1;
+    };
+    acc
+}
+fn pick55(x: u128) -> u96 { let r = x % 4; if r == 0 { 0 } else if r == 1 { 7 } else if r == 2 { 11 } else { 5 } }
+"#, vec![("circ", vec![vec![3, 6], vec![1, 6], vec![2, 2]]), ("inv_loop", vec![vec![1, 1], vec![2, 1], vec![2, 4], vec![0, 2], vec![3, 3]])]),
     ]
 }
 
@@ -282,7 +300,7 @@ fn __verif_n_trace_corpus() {
             for (cname, config) in configs.iter() {
                 for (fname, arglists) in fns {
                     for (ai, args) in arglists.iter().enumerate() {
-                        if !thorough && ai >= 3 { continue; }
+                        if !thorough && ai >= 4 { continue; }
                         let what = format!("{name}.cairo::{fname}({args:?}), {cname}");
                         let full = format!("{name}::{fname}");
                         let h = std::thread::Builder::new().stack_size(256 << 20).spawn({ let program = program.clone(); let config = config.clone(); let args = args.clone(); move || catch_unwind(AssertUnwindSafe(|| one_run(&program, &config, &full, &args))) }).unwrap();
